@@ -97,6 +97,14 @@ def build(root, shape, links, ignore):
         how, k = ignore
         if how == 'link':
             ignores.append(lpaths[k])
+        elif how == 'below':
+            # everything one level below the link is IGNOREd (the link itself is
+            # not): the walk cannot descend any further through it
+            tgt = links[k][1]
+            tabs = os.path.join(root, paths[tgt]) if paths[tgt] else root
+            for nm in sorted(os.listdir(tabs)):
+                if os.path.isdir(os.path.join(tabs, nm)) and not nm.startswith('.'):
+                    ignores.append(lpaths[k] + '/' + nm)
         else:
             loc = links[k][0]
             if paths[loc]:
@@ -254,6 +262,7 @@ def run_enum(u, ctx):
             for i in range(len(links)):
                 igns.append(('link', i))
                 igns.append(('above', i))
+                igns.append(('below', i))
             for ign in igns:
                 case = {'kind': 'loop', 'shape': shape,
                         'links': [list(x) for x in links],
